@@ -301,7 +301,7 @@ def to_expr(n):
     if k == "CXXDeleteExpr":
         return ("delete", to_expr(inner[0]) if inner else None, n.get("isArrayAsWritten", n.get("isArray", False)))
     if k == "UnaryExprOrTypeTraitExpr":
-        return ("sizeof", n.get("name"))
+        return ("sizeof", n.get("name"), to_expr(inner[0]) if inner else None, (n.get("argType") or {}).get("qualType"))
     if k == "LambdaExpr":
         return ("other", "lambda")
     if k == "CXXThisExpr":
